@@ -163,6 +163,85 @@ func checkC02(ctx *Ctx) {
 				check("and-list", t, f, bvs, bts)
 			}
 		}
+		// same-side chains: every sequence of three bounds of ONE side (lower or upper) over two
+		// versions v1 < v2 (and a Compare-equal respelling of v2 where the pool has one), strict and
+		// inclusive in every order: "tightest bound" bookkeeping must give the intersection whatever
+		// the order in which equal bounds with different strictness arrive
+		{
+			type sideOp struct{ text, canon string }
+			var lower, upper []sideOp
+			for _, op := range sortedStrs(syn.Ops) {
+				switch syn.Ops[op] {
+				case ">", ">=":
+					lower = append(lower, sideOp{op, syn.Ops[op]})
+				case "<", "<=":
+					upper = append(upper, sideOp{op, syn.Ops[op]})
+				}
+			}
+			nPairs := 2
+			if !ctx.Quick {
+				nPairs = 8
+			}
+			for pi := 0; pi < nPairs && len(ss) >= 2 && len(syn.And) > 0; pi++ {
+				i1, i2 := r.Intn(len(ss)), r.Intn(len(ss))
+				if cmpS(e, vs[i1], vs[i2]) == 0 {
+					continue
+				}
+				if cmpS(e, vs[i1], vs[i2]) > 0 {
+					i1, i2 = i2, i1
+				}
+				cand := []int{i1, i2}
+				for j := range ss {
+					if j != i2 && cmpS(e, vs[j], vs[i2]) == 0 && cmpS(e, vs[i2], vs[j]) == 0 {
+						cand = append(cand, j)
+						break
+					}
+				}
+				for _, side := range [][]sideOp{lower, upper} {
+					if len(side) == 0 {
+						continue
+					}
+					type atom struct {
+						op sideOp
+						bi int
+					}
+					var atoms []atom
+					for _, o := range side {
+						for _, bi := range cand {
+							atoms = append(atoms, atom{o, bi})
+						}
+					}
+					sep := syn.And[r.Intn(len(syn.And))]
+					for a := range atoms {
+						for b := range atoms {
+							for c := range atoms {
+								if (a*31+b*7+c+pi)%3 != 0 && len(atoms) > 4 {
+									continue // a third of the sequences per pair when there are many
+								}
+								tri := []atom{atoms[a], atoms[b], atoms[c]}
+								var texts []string
+								var bvs []any
+								var bts []string
+								for _, x := range tri {
+									texts = append(texts, x.op.text+ss[x.bi])
+									bvs = append(bvs, vs[x.bi])
+									bts = append(bts, ss[x.bi])
+								}
+								tri2 := tri
+								check("and-list", strings.Join(texts, sep), func(pv any) bool {
+									for _, x := range tri2 {
+										if !satOp(x.op.canon, cmpS(e, pv, vs[x.bi])) {
+											return false
+										}
+									}
+									return true
+								}, bvs, bts)
+							}
+						}
+					}
+				}
+			}
+		}
 		for _, osep := range syn.Or {
 			for i := 0; i < nAnd/(2*len(syn.Or)); i++ {
 				ng := r.Range(2, 3)
